@@ -12,8 +12,8 @@ def run(tier, replay):
     if replay:
         events = json.load(open(replay))["replay"]["events"]
     else:
-        jobs = [(exe, ["same", T, 4 if tier == "quick" else 8]) for T in ((2, 3, 4) if tier == "quick" else (2, 3, 4, 5))]
-        jobs += [(exe, ["rt", T, 64, 130, 11 if tier == "quick" else 3, "rot"]) for T in (2, 3)]
+        jobs = [(exe, ["same", T, 4 if tier == "quick" else 8]) for T in ((2, 3, 4) if tier == "quick" else (2, 3, 4, 5, 8, 16))]
+        jobs += [(exe, ["rt", T, 64, 130 if tier == "quick" else 200, 11 if tier == "quick" else 1, "rot"]) for T in ((2, 3) if tier == "quick" else (2, 3, 4, 5))]
         jobs += [(exe, ["rt", 1, 64, 100, 12, "rot"])]
         with cf.ThreadPoolExecutor(8) as ex:
             parts = list(ex.map(lambda j: wv.record(res, PID + "/j%d" % j[0], [j[1]]), enumerate(jobs)))
